@@ -140,6 +140,17 @@ func design(rep *mbt.Report, tier string) (asImpl, repaired map[string]bool) {
 		}(j)
 	}
 	wg.Wait()
+	// lock order of the entry points (PrintLocks.tla): acyclic nestings cannot deadlock, the cyclic one must be refuted
+	for _, nest := range []string{"none", "module", "func", "both"} {
+		t := mbt.MustTLCAllowDeadlock(mbt.TLCOpts{Spec: "PrintLocks", Cfg: "PrintLocks_" + nest + ".cfg", Workers: 2, Timeout: 5 * time.Minute})
+		refuted := len(t.Violated) > 0 || strings.Contains(t.Output, "Deadlock reached")
+		if refuted != (nest == "both") {
+			mbt.Infra("PrintLocks.tla with Nest=%s: refuted=%v (the specification or its header is out of date): %v", nest, refuted, t.Violated)
+		}
+		rep.AddTLC(t)
+		rep.Count("tlc:PrintLocks/"+nest, true)
+		t.Cleanup()
+	}
 	asImpl, repaired = map[string]bool{}, map[string]bool{}
 	gcacheClasses = map[string]bool{}
 	pkgClasses = map[string]bool{}
@@ -559,6 +570,11 @@ func richScenarios(tier string) []scenario {
 	}
 	add("already-printed", "module", 4)
 	add("already-printed", "mixed", 8)
+	// cold start: the first prints of a fresh process are concurrent (PrintConc.tla: the `pkg` cell is
+	// unwritten in the start state, SharedScratch / lazily built tables are written by whoever prints first)
+	for _, n := range []int{4, 8} {
+		out = append(out, scenario{Name: fmt.Sprintf("%s/cold-start/never-printed/module/N=%d", richSource, n), Source: richSource, Tier: tier, Start: "never-printed", Mix: "module", N: n, K: 3, Rounds: 1, Cold: true})
+	}
 	for _, n := range []int{2, 8} {
 		out = append(out, scenario{Name: fmt.Sprintf("%s/rich-constants-only/already-printed/module/N=%d", richSource, n), Source: richSource, Tier: tier, Start: "already-printed", Mix: "module", N: n, K: 3, Rounds: 150})
 	}
@@ -766,6 +782,14 @@ func Run(tier, replay string) {
 			mbt.Infra("child %s failed: %s", sc.Name, o.crashed)
 		}
 		rep.Count("scenario:"+sc.Name, sc.N >= 2)
+		if o.res.Deadlock != "" {
+			// PrintConc.tla: Terminates (PrintConcLive.cfg) -- every printer reaches Done; LockOrder: a printer that
+			// holds a function mutex never waits for the module mutex
+			rep.Fail(mbt.Failure{Signature: "C13|does-not-return|deadlock|mix=" + sc.Mix + "|" + idsLabel(sc),
+				What: fmt.Sprintf("%s: concurrent printers block each other forever: %s", sc.Name, mbt.Truncate(o.res.Deadlock, 1500)),
+				Case: map[string]interface{}{"scenario": sc, "deadlock": o.res.Deadlock}})
+			continue
+		}
 		if sc.Source == richSource {
 			if o.res.Modules == 0 {
 				os.RemoveAll(dir)
@@ -875,6 +899,8 @@ func Run(tier, replay string) {
 				site = "Module.AssignGlobalIDs/AssignMetadataIDs"
 			} else if row.Mu == "none" {
 				site = "no-mutex"
+			} else if row.Mu == "order" {
+				site = "nested acquisitions of module and function mutexes"
 			}
 			k := key{m[1], site, idsLabel(rowScenario[ri-1])}
 			n, _ := strconv.Atoi(m[4])
